@@ -58,7 +58,12 @@ PROPS = {
                       "and that every Jacobian-operator wrapper of jacobian_operator.py (real casting, adjoint/T, identity, sum, difference and the "
                       "three compositions, with operators or real arrays) applies in _matvec the matrix it denotes and in _rmatvec its conjugate "
                       "transpose (Re(A x) / Re(A^H x) for the real casting), and that real / T / + / - / @ / shift_identity build the right wrapper "
-                      "over the right operands with the shape of the denoted matrix.",
+                      "over the right operands with the shape of the denoted matrix; that the set returned by _compute_diff_ios_and_couplings only "
+                      "depends on the CURRENT request (set(variables), set(functions)) whatever was requested before (representation invariant of "
+                      "the cache, both the hit and the miss path); that the LU variants and the dispatchers direct_mode / adjoint_mode return the same "
+                      "closed form (the LU option only changes the solver); that compute_newton_step returns the solution of (dR/dy) step = -R for the "
+                      "assembled residual Jacobian; and, as SMT lemmas over the ring with ANY exact solver (A solve(A, B) = B), that the direct and the "
+                      "adjoint expressions are equal and that selecting a subset of functions / variables (block rows / columns) commutes with the closed form.",
         "level_note": "Trusted: pyvc, z3, reals for floats. ASSUMED (not verified, listed per function in the evidence): the block-placement contracts of "
                       "scipy.sparse eye / csr_matrix / bmat (pyvc/plug_np_c07.py); the textbook identities of the matrix ring (plug_np_c07.ring_axioms: "
                       "row/column of products, (XY)^T = Y^T X^T, (X^T)^-1 = (X^-1)^T, associativity, extensionality by rows/columns); an exact linear "
@@ -69,7 +74,7 @@ PROPS = {
                       "with `sizes`. Induction lemmas (prefix-sum congruence / monotonicity, last occurrence) are proved as base + step SMT lemmas. One known "
                       "finding (IndexError for empty functions/variables), see known_findings.json.",
         "design_ref": "DESIGN.md §4 C07",
-        "modules": ["contracts.c07_assembly"],
+        "modules": ["contracts.c07_assembly", "contracts.c07_solve"],
         "assumptions": ["scipy.sparse.eye(n) is the n x n identity", "csr_matrix((r, c)) is the r x c zero matrix; csr_matrix(m) has the entries of m",
                         "bmat(blocks) places block (a, b) at the prefix sums of the block-row heights / block-column widths, zeros where a block is None",
                         "jac[f][v].shape == (sizes[f], sizes[v]) for the linearized disciplines (precondition)",
@@ -77,11 +82,16 @@ PROPS = {
                         "shape (broadcast) errors of row/column assignments are not modelled in the ring model",
                         "LinearOperator protocol: matvec(x) = A x, rmatvec(x) = A^H x, __init__(dtype, shape) stores both; dimension-mismatch errors not modelled",
                         "conjugate-transpose / distributivity identities (13 axioms listed in plug_np_c07.operator_axioms)",
+                        "the names selected by traverse_add_diff_io_mda depend only on the coupling structure and on the SETS of requested inputs / outputs",
+                        "one assembly is always used with its own coupling structure and the same state variables (precondition of the cache contract)",
+                        "scipy.sparse.linalg.factorized(A) returns an exact solver of A x = b; csc_matrix(A) is another storage of A",
+                        "compute_sizes and residuals are ASSUMED contracts (callees of compute_newton_step); the disciplines' Jacobian blocks have the shapes of the values' sizes",
                         "array operands of the operator wrappers are real (precondition, from their type SparseOrDenseRealArray)"],
         "not_covered": ["LINEAR_OPERATOR representation (AssembledJacobianOperator)", "JacobianOperator partial Jacobians inside the assembly", "JacobianOperator.copy / get_matrix_representation",
                         "iterative-solver accuracy, conditioning",
-                        "LU variants (_direct_mode_lu, _adjoint_mode_lu) and the dispatchers direct_mode / adjoint_mode", "compute_newton_step",
-                        "_compute_diff_ios_and_couplings (cache key), _check_inputs", "total_derivatives end to end", "compute_sizes", "residuals", "plot_dependency_jacobian"],
+                        "_check_inputs", "total_derivatives end to end (composition of the verified pieces; in-place filtering of the cached set)",
+                        "compute_sizes and residuals (assumed contracts only)", "set_newton_differentiated_ios", "traverse_add_diff_io_mda (assumed through its set of names)",
+                        "plot_dependency_jacobian"],
     },
     "C04": {
         "level_text": "Proof, for every database (any number of points, missing values), tolerance and constraint list, that constraint satisfaction and "
@@ -94,7 +104,7 @@ PROPS = {
                       "objective value), see known_findings.json. Not covered: OptimizationResult.from_optimization_problem, Pareto front, last_point.",
         "design_ref": "DESIGN.md §4 C04",
         "runtime": "contracts.rt_c04",
-        "modules": ["contracts.c04_optimum"],
+        "modules": ["contracts.c04_optimum", "contracts.c04_result"],
         "not_covered": ["OptimizationResult.from_optimization_problem", "pareto/utils.py", "multiobjective_optimization_result.py", "last_point", "NaN / infinite recorded values"],
     },
     "C16": {
@@ -147,7 +157,7 @@ PROPS = {
         "design_ref": "DESIGN.md §4 C02",
         "not_covered": ["add_variable", "filter", "filter_dimensions", "extend", "set_current_value", "get_current_value", "convert_array_to_dict/convert_dict_to_array",
                         "check_membership", "project_into_bounds", "unnormalize_vect with integer variables"],
-        "modules": ["contracts.c02_design_space", "contracts.c02_normalization"],
+        "modules": ["contracts.c02_design_space", "contracts.c02_normalization", "contracts.c02_more"],
     },
     "C01": {
         "level_text": "Proof, function by function and for all inputs, of the database lookup / compute / store protocol of ProblemFunction: a recorded point is "
@@ -258,7 +268,7 @@ PROPS = {
                       "ghost code in __ensure_input_data_exists (ghost variables only), DictProxy stores pickled copies, IO/grammar/_run environment of "
                       "execute assumed. Not covered: HDF5Cache, linearize protocol, locking, execute with a full cache (data converters).",
         "design_ref": "DESIGN.md §4 C05",
-        "modules": ["contracts.c05_caches", "contracts.c05_full_cache", "contracts.c05_discipline", "contracts.c11_hdf5_cache_file"],
+        "modules": ["contracts.c05_caches", "contracts.c05_full_cache", "contracts.c05_discipline", "contracts.c11_hdf5_cache_file", "contracts.c05_more"],
         "runtime": "contracts.rt_c05",
         "assumptions": [
             "arrays are opaque values compared by content; numpy's `!=`/norm inside compare_dict_of_arrays are not modelled: tolerance 0 = equal contents, "
@@ -289,10 +299,14 @@ PROPS = {
         "level_note": "The OS scheduler and the queue implementation are outside of the logic: the queue contract (exactly-once delivery, arbitrary order) is an "
                       "assumption, under which the order-sensitive sequential code is proved for every delivery order. Parallel forward finite differences "
                       "(FirstOrderFD._compute_parallel_grad, contracts/c16_approx.py) and the parallel complex step (ComplexStep._compute_parallel_grad, contracts/c16_complex.py) are proved to return exactly the quotients of the sequential _compute_grad (same "
-                      "postcondition, which determines the result) through the positional summary of execute. Shared full caches (\"including when workers share a cache\"): the per-operation contracts of BaseFullCache / MemoryFullCache (contracts/c05_full_cache.py, also C05) state every operation over the WHOLE abstract store for an arbitrary prior history - cache_outputs / cache_jacobian address the entry whose inputs match, whatever entry another worker created or accessed last - so that any interleaving of the operations of several workers (each operation atomic under the cache lock, assumed) yields the store of a sequential execution of the same operations. Other consequences for DOE / chains / "
-                      "linearization / the other derivative approximators are not under contract yet.",
+                      "postcondition, which determines the result) through the positional summary of execute. Shared full caches (\"including when workers share a cache\"): the per-operation contracts of BaseFullCache / MemoryFullCache (contracts/c05_full_cache.py, also C05) state every operation over the WHOLE abstract store for an arbitrary prior history - cache_outputs / cache_jacobian address the entry whose inputs match, whatever entry another worker created or accessed last - so that any interleaving of the operations of several workers (each operation atomic under the cache lock, assumed) yields the store of a sequential execution of the same operations. Disciplines, linearization and chains (contracts/c13_disciplines.py, the verified contract of execute being the callee "
+                      "summary of super().execute): DiscParallelExecution.execute returns the positional list and, with one discipline per input, leaves in discipline i of the ORIGINAL list the data of "
+                      "worker result i (the last successful task of a discipline listed twice wins; a failed task leaves its discipline untouched with processes); _Functor.__call__ and "
+                      "DiscParallelLinearization.execute likewise for (local data, Jacobian), the returned list of Jacobians being positional OUTSIDE the known finding (failed tasks are dropped from it); "
+                      "MDOParallelChain._execute leaves in io.data the update, in list order, with the outputs of every discipline executed on the chain's data (later discipline wins) OUTSIDE the known "
+                      "finding (a failed discipline / a single discipline with processes: stale data or KeyError). The parallel branch of BaseDOELibrary._run and the other derivative approximators are not under contract.",
         "design_ref": "DESIGN.md §4 C13",
-        "modules": ["contracts.c13_parallel", "contracts.c16_approx", "contracts.c16_complex", "contracts.c05_full_cache"],
+        "modules": ["contracts.c13_parallel", "contracts.c16_approx", "contracts.c16_complex", "contracts.c05_full_cache", "contracts.c13_disciplines"],
         "assumptions": [
             "queue contract: every item put in a queue is delivered exactly once, to exactly one getter, in an arbitrary order; every started worker runs "
             "_execute_workers to completion (fairness/termination of the scheduler)",
@@ -300,8 +314,16 @@ PROPS = {
             "the caller; process-based workers operate on pickled copies with the same behaviour (C20)",
             "callbacks return normally; exceptions_to_re_raise only contains exception classes; n_processes >= 1 (PositiveInt in all settings)",
             "POSIX platform; a process named 'subprocess' is a (daemonic) gemseo worker",
+            "c13_disciplines: a discipline is an opaque value; its local data / Jacobian / parent-side counters are ghost maps; Discipline.execute returns its (non-None) data holding every "
+            "output name, Discipline.linearize is deterministic (lin_data / lin_jac / lin_raises); the representation invariants set by the constructors (worker i = task callable of discipline i; "
+            "the chain's parallel execution runs the chain's disciplines with exceptions_to_re_raise=()) are preconditions; effect of THREAD workers on the shared disciplines (assumed, ghost "
+            "definition before the write-back): with pairwise distinct disciplines, one per input, discipline i holds result i if task i succeeded (unspecified if it failed), unlisted "
+            "disciplines untouched - process workers have no effect on the caller's disciplines; MDOParallelChain._get_input_data_copies is an assumed (trusted) summary; cited lemma: a filtered "
+            "sub-sequence keeping every item is the whole sequence; MULTI_PROCESSING_START_METHOD and ExecutionStatistics.is_enabled are arbitrary",
         ],
-        "not_covered": ["_check_unicity (set cardinality)", "parallel DOE / DiscParallelExecution / DiscParallelLinearization / parallel centered differences, compute_optimal_step",
+        "not_covered": ["_check_unicity (set cardinality)", "parallel DOE (BaseDOELibrary._run parallel branch, __store_in_database) / parallel centered differences, compute_optimal_step; the constructors of "
+                        "DiscParallelExecution / DiscParallelLinearization / MDOParallelChain (their representation invariants are preconditions); MDOParallelChain._compute_jacobian; worker-side "
+                        "statistics counters (shared memory under fork)",
                         "the lock protocol of shared caches under true concurrency (each cache operation is treated as atomic)", "pickling of workers and data (C20)"],
     },
     "C08": {
@@ -358,7 +380,7 @@ PROPS = {
                       "networkx.edge_bfs/reverse_view; reach = reflexive-transitive closure (closure axioms). Not proved: requested endpoints of paths of length >= 1 "
                       "(needs the unfolding of reach), minimality of the selection, the Jacobian accumulation of MDOChain.",
         "design_ref": "DESIGN.md §4 C09",
-        "modules": ["contracts.c09_chain_rule", "contracts.c09_chains"],
+        "modules": ["contracts.c09_chain_rule", "contracts.c09_chains", "contracts.c09_numeric"],
         "assumptions": [
             "networkx.edge_bfs(G, source) enumerates exactly the edges whose tail is reachable from the source, each once; reverse_view(G) = same nodes, reversed edges with the same data",
             "reach = reflexive-transitive closure of the edge relation (closure axioms only)",
@@ -406,7 +428,7 @@ PROPS = {
                       "The check currently reports genuine violations on the pinned tree (BaseGrammar.__copy__ shares the required names with the original; rename_element drops a "
                       "None default; __delitem__/rename_element/restrict_to/update leave stale namespace entries) - see the report / known findings.",
         "design_ref": "DESIGN.md §4 C15",
-        "modules": ["contracts.c15_grammars", "contracts.c15_json_grammar"],
+        "modules": ["contracts.c15_grammars", "contracts.c15_json_grammar", "contracts.c15_pydantic_grammar"],
         "assumptions": [
             "type objects and data values are opaque; py_isinstance(value, type) and py_is_type(x) are uninterpreted; class objects (dict, Mapping, ndarray) are distinct type objects; type(v) is a type v is an instance of",
             "collections.abc mixins of RequiredNames/Defaults/grammars are summarised from their CPython source over the classes' verified primitives (pyvc/plug_grammars.py)",
@@ -438,11 +460,20 @@ PROPS = {
                       "__setstate__ re-runs __init__ with exactly these keywords, CPython keyword binding of the state dictionary) with the round-trip lemma (same node, same real "
                       "file path, same tolerance and name); JSONGrammar.__getstate__ (state = instance dictionary minus validator/builder/_defaults plus the CURRENT defaults as a plain "
                       "dict under 'defaults', whatever stray entry the dictionary holds under that key) and __setstate__ (every entry restored, builder refilled from the pickled "
-                      "schema with its own required set emptied again (034df8e), restored defaults exactly those of the state; KeyError exactly when a default is no property of the pickled schema).",
-        "level_note": "Instance dictionaries are modelled as a dict field; attribute values are opaque with recognisable kinds (Synchronized / Path / PurePath). "
-                      "The whole-class question (is every non-picklable attribute excluded and rebuilt) is not a function contract and is not covered.",
+                      "schema with its own required set emptied again (034df8e), restored defaults exactly those of the state; KeyError exactly when a default is no property of the pickled schema). "
+                      "contracts/c20_classes.py (class by class, the hierarchy being re-read from every file of src/gemseo at each run, contracts/c20_hierarchy.py): EVERY definition of __getstate__/__setstate__/"
+                      "__reduce__[_ex]/__getnewargs__[_ex]/__deepcopy__/__copy__/_init_shared_memory_attrs_before/after/_ATTR_NOT_TO_SERIALIZE in the source is under a contract (a new override fails the check); "
+                      "the classes named by the property (BaseDiscipline, Discipline, ProcessDiscipline, the MDAs, chains, scenarios; formulations, MDO functions, design/parameter spaces, problems, Database, "
+                      "SimpleCache, SimpleGrammar, IO, factories, algorithm libraries, transformers with all their subclasses) only inherit the verified protocol resp. the default one (expectation re-computed from the real C3 MRO); "
+                      "for each Serializable class (96 on the pinned tree), with the exclusion set read from the real class body: the hooks it resolves to are verified, every name dropped at pickling is created again at restore, "
+                      "the shared counters are not excluded (carried over as values); proofs on the real source of the no-op hooks of Serializable, BaseDOELibrary/DirectoryCreator._init_shared_memory_attrs_after "
+                      "(NEW lock / NEW shared cell), AnalyticDiscipline/SobieskiDiscipline.__setstate__ (through the contract of Serializable.__setstate__), CustomTqdmProgressBar, DisciplineData and "
+                      "PydanticGrammar.__getstate__/__setstate__ with their round-trip lemmas; every attribute bound to a multiprocessing/threading lock is kept out of the state. "
+                      "Four known findings (ScalableDiscipline, XLSDiscipline, MemoryFullCache, DirectoryCreator: see known_findings.json).",
+        "level_note": "Instance dictionaries are modelled as a dict field; attribute values are opaque with recognisable kinds (Synchronized / Path / PurePath / lock / stream / pydantic model class). "
+                      "The hierarchy lemmas of c20_classes.py are facts computed from the parsed source (ground obligations), not symbolic executions; picklability is only addressed for locks.",
         "design_ref": "DESIGN.md §4 C20",
-        "modules": ["contracts.c20_serialization", "contracts.c20_state"],
+        "modules": ["contracts.c20_serialization", "contracts.c20_state", "contracts.c20_classes"],
         "assumptions": [
             "attribute stores on instances of the classes under contract go to the instance dictionary (no slots/descriptors)",
             "pickle calls __setstate__ on an instance created by cls.__new__ (empty dictionary)",
@@ -451,8 +482,13 @@ PROPS = {
             "HDF5Cache: str(s) == s for a str, HDF5FileSingleton(path) is the handler of realpath(path) holding a str path, the cache name is never empty (class invariants used by the round-trip lemma)",
             "round-trip lemma: same-platform path round trip Path(to_os_specific(p)) == p; class well-formedness (the Synchronized attributes are exactly "
             "those re-created as Synchronized by the before-hook)",
+            "c20_classes: the state of AnalyticDiscipline / SobieskiDiscipline / PydanticGrammar handed to __setstate__ is one produced by __getstate__ of a constructed object (it lists the attributes "
+            "the re-creation reads); AnalyticDiscipline._init_expressions (sympy), PydanticGrammar._clear / __rebuild_model (pydantic), DirectoryCreator.__get_initial_counter (file system) and "
+            "XLSDiscipline.__setstate__ (Excel) are assumed, the attribute sets they bind being checked against the real source; SobieskiProblem(dtype), StringIO(), DisableOnWriteError(...) are opaque constructions; "
+            "a dict-subclass instance is its dictionary content; self.__class__ is the class under contract (PydanticGrammar has no subclass in the repository: checked)",
+            "c20_hierarchy: classes are found by parsing class statements (classes created dynamically are not seen); the instance attributes of a class are the names bound by `self.X = ...` in the repository",
         ],
-        "not_covered": ["PydanticGrammar / DisciplineData __getstate__/__setstate__ overrides; for JSONGrammar the parts (Defaults, builder, required names) are opaque values read through ghost heaps: "
+        "not_covered": ["for JSONGrammar the parts (Defaults, builder, required names) are opaque values read through ghost heaps: "
                         "BaseGrammar.clear / schema / Defaults.update / builder.add_schema are assumed there (verified under C15 on the field-level model); HDF5Cache: BaseFullCache.__init__, _read_hashes "
                         "and the HDF5FileSingleton multiton are assumed", "pickle itself, picklability of the "
                         "remaining attribute values", "behavioural equivalence of restored disciplines (execute/linearize agree)"],
@@ -527,7 +563,7 @@ PROPS["C11"] = {
                   "tools/validate_h5py_model.py), sorted() as a deterministic duplicate-free listing, float64 = reals, ASCII output names. "
                   "The property is claimed at the level of the writer primitives only; DesignSpace / OptimizationProblem / HDF5Cache files are not under contract.",
     "design_ref": "DESIGN.md §4 C11",
-    "modules": ["contracts.c11_hdf_database", "contracts.c11_hdf5_cache_file"],
+    "modules": ["contracts.c11_hdf_database", "contracts.c11_hdf5_cache_file", "contracts.c11_design_space_files"],
     "runtime": "contracts.rt_c11",
     "assumptions": [
         "abstract HDF node (pyvc/plug_hdf.py): A1 File modes w/a/r and persistence of what was written; A2 require_group; A3 `in`/len of a group; A4 create_dataset "
